@@ -19,6 +19,7 @@ RULE = ("gates: every built-in x a parameter alphabet (ints, floats incl. 1e-07 
         "save/load (path, StringIO), circuit sets. Oracle = own structural walker (kind, nesting, control counts, exponent, definition, indices, parameters by the "
         "statement's rules) + library == + free symbols + matrices at two assignments. non-trivial = circuit with a wrapped, custom or symbolic gate")
 RULE += ' Also: circuit sets whose members are equal up to the gate tolerance but not identical; histories load -> extend with gates of the original custom definition -> serialise again.'
+RULE += ' Round 5: 24 same-named custom definitions with different matrices created, serialised and dropped in one process; exponents 0, 0.0, 1, -1, -0.5, 1/3, -2.0 and 3 controls; empty and singleton circuit sets through files.'
 ASSUMPTIONS = ["symbol names are identifiers other than Python keywords; a plain and an indexed symbol never share a base name; symbols carry no assumptions",
                "custom gate names do not collide with built-in names or wrapper markers"]
 BOUNDS = {"quick": {"wrapper_depth": 2, "two_op_subalphabet": 14}, "thorough": {"wrapper_depth": 3, "two_op_subalphabet": 24}}
